@@ -144,6 +144,15 @@ BASE_ENV = {
 
 
 # ----------------------------------------------------------------------------- plans
+def rmtree(path):
+    """shutil.rmtree recurses once per directory level; `debugfs rdump` of a damaged tree can legitimately
+    create a path as deep as PATH_MAX allows (1000+ levels), which is deeper than Python's stack."""
+    try:
+        shutil.rmtree(path, ignore_errors=True)
+    except RecursionError:
+        subprocess.run(["rm", "-rf", path], check=False)
+
+
 class Plan:
     """The complete description of the environment of one simulated process."""
 
@@ -493,7 +502,7 @@ def run_plain(argv, workdir, env=None, stdin=None, timeout=120):
 def make_scratch(tag):
     d = os.path.join(SCRATCH_ROOT, "verif-%s-%d" % (tag, os.getpid()))
     if os.path.exists(d):
-        shutil.rmtree(d, ignore_errors=True)
+        rmtree(d)
     os.makedirs(d)
     return d
 
